@@ -27,6 +27,7 @@ import (
 	"os"
 	"os/exec"
 	"path/filepath"
+	"regexp"
 	"sort"
 	"strings"
 )
@@ -643,8 +644,10 @@ func instrumentPackage(fset *token.FileSet, imp types.Importer, lp *listPkg, pi 
 		}
 		name := g.Name()
 		idx := globalIdx[g]
-		if n, ok := g.Type().(*types.Named); ok && n.Obj().Pkg() != nil && n.Obj().Pkg().Path() == "sync" {
-			// a lock / once / map / pool held by value: a fresh process has the zero value
+		if n, ok := g.Type().(*types.Named); ok && n.Obj().Pkg() != nil && n.Obj().Pkg().Path() == "sync" && len(vs.Values) != len(vs.Names) {
+			// a lock / once / map / pool held by value and declared without initialiser: a fresh
+			// process has the zero value (with an initialiser, e.g. sync.Pool{New: ...}, it is
+			// re-evaluated below)
 			fmt.Fprintf(&body, "\t%s = *new(%s)\n", name, types.TypeString(g.Type(), qualifier(pkg)))
 			rep.ResetVars = append(rep.ResetVars, pkg.Name()+"."+name)
 			continue
@@ -660,6 +663,11 @@ func instrumentPackage(fset *token.FileSet, imp types.Importer, lp *listPkg, pi 
 			fn := fset.Position(vs.Pos()).Filename
 			b := fset.File(vs.Pos()).Base()
 			expr := editedRange(srcs[fn], fileEdits[fn], int(vs.Values[idx].Pos())-b, int(vs.Values[idx].End())-b)
+			if n, ok := g.Type().(*types.Named); ok && n.Obj().Pkg() != nil && n.Obj().Pkg().Path() == "sync" {
+				fmt.Fprintf(&body, "\t%s = %s\n", name, expr)
+				rep.ResetVars = append(rep.ResetVars, pkg.Name()+"."+name)
+				continue
+			}
 			if containsSyncType(g.Type()) && !isFuncOrPtr(g.Type()) {
 				// cannot copy a lock: reset the other fields one by one
 				// (from a fresh evaluation of the initialiser, whose own locks are simply not copied)
@@ -723,7 +731,7 @@ func instrumentPackage(fset *token.FileSet, imp types.Importer, lp *listPkg, pi 
 		if n == "_" || n == "." {
 			continue
 		}
-		if strings.Contains(bs, n+".") {
+		if regexp.MustCompile(`(^|[^A-Za-z0-9_])` + regexp.QuoteMeta(n) + `\.`).MatchString(bs) {
 			if p == "sync" {
 				p = "verif/simrt/ssync"
 				_ = needSync
